@@ -1,4 +1,7 @@
 mod c01;
+mod c02;
+mod c05;
+mod sweep;
 mod c11;
 mod ctx;
 mod drv;
@@ -17,6 +20,8 @@ fn dispatch_run(prop: &str, ctx: &mut Ctx) -> bool {
     match prop {
         "C01" => c01::run(ctx),
         "C11" => c11::run(ctx),
+        "C02" => c02::run(ctx),
+        "C05" => c05::run(ctx),
         _ => return false,
     }
     true
@@ -26,6 +31,8 @@ fn dispatch_replay(prop: &str, ctx: &mut Ctx, scenario: &Value) -> Result<(), St
     match prop {
         "C01" => c01::replay(ctx, scenario),
         "C11" => c11::replay(ctx, scenario),
+        "C02" => c02::replay(ctx, scenario),
+        "C05" => c05::replay(ctx, scenario),
         _ => Err(format!("no replay for {prop}")),
     }
 }
